@@ -1,9 +1,124 @@
-(* C09 placeholder: replaced by the full statements once DecompProofs.v exists. *)
-From Coq Require Import List NArith ZArith Bool.
-From AV Require Import model.Proto model.Decomp.
+(* C09 — dictionary decompositions represent the target exactly and without overlap.
+   Only statements, each closed by an exact lemma of proofs/DecompProofs.v, with Print Assumptions.
+
+   Model: model/Decomp.v (`decompose : method -> N -> outcome (list term)`, `sum_int`,
+   `sort_by_exponent`, `dictionary`).  A term {D; E} stands for D * 2^E; its bit range is
+   [E, E + N.size D).  The theorems hold for every x : N (x = 0 gives the empty sum), every
+   K >= 1 and every T >= 0, which contains the property's range x >= 1.  With K = 0 the Go loops
+   of FixedWindow and SlidingWindow never end (last two theorems): outside the property.
+   "x itself is not modified" is a statement about Go aliasing; it is checked by the harness
+   oracle on every case, the model is purely functional. *)
+From Coq Require Import List NArith ZArith Bool Sorted Permutation.
+From AV Require Import model.Proto model.Decomp proofs.DecompProofs.
 Import ListNotations.
 Open Scope N_scope.
 
-Theorem C09_example : decompose (Sliding 3) 5745 = Ok [mkTerm 1 0; mkTerm 7 4; mkTerm 1 9; mkTerm 5 10].
+(* window sizes for which the property is stated *)
+Definition C09_valid (m : method) : Prop :=
+  match m with
+  | Fixed K | Sliding K | Hybrid K _ => 1 <= K
+  | RunLength _ => True
+  end.
+
+(* fuel adequacy: for valid parameters the model's entry point always returns a sum *)
+Theorem C09_returns : forall m x, C09_valid m -> exists s, decompose m x = Ok s.
+Proof. exact decomp_returns. Qed.
+Print Assumptions C09_returns.
+
+(* the terms sum to exactly x (sum_int mirrors Sum.Int: fold of D << E) *)
+Theorem C09_sum : forall m x s, C09_valid m -> decompose m x = Ok s -> sum_int s = x.
+Proof. exact decomp_sum. Qed.
+Print Assumptions C09_sum.
+
+(* listed by strictly increasing exponent *)
+Theorem C09_sorted : forall m x s, C09_valid m -> decompose m x = Ok s ->
+  StronglySorted (fun a b => E a < E b) s.
+Proof. exact decomp_sorted. Qed.
+Print Assumptions C09_sorted.
+
+(* every d is positive *)
+Theorem C09_positive : forall m x s, C09_valid m -> decompose m x = Ok s ->
+  Forall (fun t => 0 < D t) s.
+Proof. exact decomp_positive. Qed.
+Print Assumptions C09_positive.
+
+(* bit ranges do not overlap: for every pair in list order, the first range ends at or before
+   the start of the second *)
+Theorem C09_disjoint : forall m x s, C09_valid m -> decompose m x = Ok s ->
+  ForallOrdPairs (fun a b => E a + N.size (D a) <= E b) s.
+Proof. exact decomp_disjoint. Qed.
+Print Assumptions C09_disjoint.
+
+(* fixed-window terms have at most K bits *)
+Theorem C09_shape_fixed : forall K x s, 1 <= K -> decompose (Fixed K) x = Ok s ->
+  Forall (fun t => N.size (D t) <= K) s.
+Proof. exact shape_fixed. Qed.
+Print Assumptions C09_shape_fixed.
+
+(* sliding-window terms are odd with at most K bits *)
+Theorem C09_shape_sliding : forall K x s, 1 <= K -> decompose (Sliding K) x = Ok s ->
+  Forall (fun t => N.odd (D t) = true /\ N.size (D t) <= K) s.
+Proof. exact shape_sliding. Qed.
+Print Assumptions C09_shape_sliding.
+
+(* run-length terms are all-ones, of length at most T when T > 0 *)
+Theorem C09_shape_runlength : forall T x s, decompose (RunLength T) x = Ok s ->
+  Forall (fun t => exists w, D t = 2 ^ w - 1 /\ (0 < T -> w <= T)) s.
+Proof. exact shape_runlength. Qed.
+Print Assumptions C09_shape_runlength.
+
+(* hybrid terms are odd and either at most K bits wide or all-ones runs longer than K
+   (and at most T when T > 0) *)
+Theorem C09_shape_hybrid : forall K T x s, 1 <= K -> decompose (Hybrid K T) x = Ok s ->
+  Forall (fun t => N.odd (D t) = true /\
+                   (N.size (D t) <= K \/
+                    exists w, D t = 2 ^ w - 1 /\ K < w /\ (0 < T -> w <= T))) s.
+Proof. exact shape_hybrid. Qed.
+Print Assumptions C09_shape_hybrid.
+
+(* the derived dictionary is the strictly increasing list of exactly the d of the sum
+   (for any term list, not only decompositions) *)
+Theorem C09_dictionary : forall s,
+  StronglySorted N.lt (dictionary s) /\
+  forall d, In d (dictionary s) <-> exists t, In t s /\ D t = d.
+Proof. exact dictionary_spec. Qed.
+Print Assumptions C09_dictionary.
+
+(* sort.Slice is not a stable sort and the model uses insertion; it does not matter: any
+   exponent-ascending rearrangement of a decomposition is the model's list *)
+Theorem C09_sort_unique : forall m x s s', C09_valid m -> decompose m x = Ok s ->
+  Permutation s s' -> StronglySorted (fun a b => E a < E b) s' -> s' = s.
+Proof. exact sort_slice_justified. Qed.
+Print Assumptions C09_sort_unique.
+
+(* outside the property: K = 0.  The Go loops never end; the model runs out of fuel. *)
+Theorem C09_fixed_K0_diverges : forall x, 1 <= x -> decompose (Fixed 0) x = OutOfFuel.
+Proof. exact fixed_K0_diverges. Qed.
+Print Assumptions C09_fixed_K0_diverges.
+
+Theorem C09_sliding_K0_diverges : forall x, 1 <= x -> decompose (Sliding 0) x = OutOfFuel.
+Proof. exact sliding_K0_diverges. Qed.
+Print Assumptions C09_sliding_K0_diverges.
+
+(* non-vacuity: the hypotheses are met by non-trivial decompositions.
+   x = 0xefb7 = 0b1110_1111_1011_0111 (runs of 3, 5, 2, 3 ones) *)
+Example C09_ex_fixed : decompose (Fixed 3) 0xefb7 =
+  Ok [mkTerm 1 0; mkTerm 3 1; mkTerm 3 4; mkTerm 7 7; mkTerm 3 10; mkTerm 7 13].
 Proof. vm_compute. reflexivity. Qed.
-Print Assumptions C09_example.
+Example C09_ex_sliding : decompose (Sliding 3) 0xefb7 =
+  Ok [mkTerm 7 0; mkTerm 3 4; mkTerm 3 7; mkTerm 7 9; mkTerm 7 13].
+Proof. vm_compute. reflexivity. Qed.
+Example C09_ex_runlength :
+  decompose (RunLength 3) 0xefb7 = Ok [mkTerm 7 0; mkTerm 3 4; mkTerm 3 7; mkTerm 7 9; mkTerm 7 13] /\
+  decompose (RunLength 0) 0xefb7 = Ok [mkTerm 7 0; mkTerm 3 4; mkTerm 31 7; mkTerm 7 13].
+Proof. vm_compute. split; reflexivity. Qed.
+(* K = 2, T = 4: the run of five is cut into 15 @ 8 (a run) and the left-over 1 @ 7 (a window) *)
+Example C09_ex_hybrid :
+  decompose (Hybrid 2 4) 0xefb7 = Ok [mkTerm 7 0; mkTerm 3 4; mkTerm 1 7; mkTerm 15 8; mkTerm 7 13] /\
+  decompose (Hybrid 3 0) 0xefb7 = Ok [mkTerm 7 0; mkTerm 3 4; mkTerm 31 7; mkTerm 7 13] /\
+  decompose (Hybrid 3 2) 0xefb7 = decompose (Sliding 3) 0xefb7.
+Proof. vm_compute. repeat split; reflexivity. Qed.
+Example C09_ex_dictionary :
+  dictionary [mkTerm 7 0; mkTerm 3 4; mkTerm 3 7; mkTerm 7 9; mkTerm 7 13] = [3; 7] /\
+  sum_int [mkTerm 7 0; mkTerm 3 4; mkTerm 3 7; mkTerm 7 9; mkTerm 7 13] = 0xefb7.
+Proof. vm_compute. split; reflexivity. Qed.
